@@ -39,8 +39,6 @@ theorem foldl_eraseCell (v : Id) (cs : List Id) (m : Mesh) (hN : CellsNodupP m) 
       simp only [Function.comp]
       by_cases h1 : p.1 = c <;> by_cases h2 : p.1 ∈ cs <;>
         simp [h1, h2, dropV, hnd.erase_eq_filter, List.filter_filter]
-      · subst h1; simp [h2]
-      · subst h1; simp [h2]
     · intro q hq
       rw [updCell_cells'] at hq
       obtain ⟨p, hp, rfl⟩ := List.mem_map.mp hq
@@ -63,7 +61,12 @@ theorem gm1_cells (rem : List (Id × Vertex)) (m : Mesh) (hN : CellsNodupP m)
       (q.1, { q.2 with verts := q.2.verts.filter fun x => !(rem.map (·.1)).contains x }) := by
   induction rem generalizing m with
   | nil =>
-    simp only [gm1, List.foldl_nil, List.map_nil, List.contains_nil, Bool.not_false, List.filter_true]
+    simp only [gm1, List.foldl_nil, List.map_nil, List.contains_nil, Bool.not_false]
+    have : ∀ q : Id × Cell, (q.1, ({ q.2 with verts := q.2.verts.filter fun _ => true } : Cell)) = q := by
+      intro q
+      obtain ⟨k, i, vs, sm⟩ := q
+      simp
+    simp only [this]
     exact (List.map_id' _).symm
   | cons p rem ih =>
     have hstep : (p.2.ownCells.foldl (fun m c => m.updCell c fun cl => { cl with verts := cl.verts.erase p.1 }) m).cells
@@ -87,7 +90,6 @@ theorem gm1_cells (rem : List (Id × Vertex)) (m : Mesh) (hN : CellsNodupP m)
       intro x _
       rw [Bool.and_comm]
       congr 1
-      simp [bne, BEq.comm]
     · intro q hq
       rw [hstep] at hq
       obtain ⟨q0, hq0, rfl⟩ := List.mem_map.mp hq
@@ -191,7 +193,7 @@ theorem gmR_cells (m : Mesh) (used : List Id) (segs : List (Id × Id)) (hK : Key
         List.mem_map, List.mem_filter, not_exists, not_and, and_imp]
       intro p _ hpu hpx
       subst hpx
-      simp [hu] at hpu
+      exact hpu (by simpa using hu)
     · simp only [hu, Bool.not_eq_eq_eq_not, Bool.not_false, List.contains_eq_mem, decide_eq_true_eq,
         List.mem_map, List.mem_filter]
       obtain ⟨p, hp, rfl⟩ := List.mem_map.mp hxk
@@ -220,10 +222,607 @@ theorem gmR_edges (m : Mesh) (removed : List (Id × Vertex)) (used : List Id) (s
   rw [this]
   unfold gm4
   rw [foldl_mkEdge_nat_edges]
-  · simp
+  · rfl
   · rw [List.map_fst_zip (by simp)]
     exact List.nodup_range
   · simp
 
+theorem gmR_vkeys (m : Mesh) (used : List Id) (segs : List (Id × Id)) :
+    (gmR m (m.vertices.filter fun p => !(used.contains p.1)) used segs).vertices.map (·.1) =
+      (m.vertices.map (·.1)).filter fun k => used.contains k := by
+  have h : VSim (gm2 (gm1 m (m.vertices.filter fun p => !(used.contains p.1)))) m ∧
+      (gm2 (gm1 m (m.vertices.filter fun p => !(used.contains p.1)))).vertices.map (·.1) = m.vertices.map (·.1) := by
+    refine ⟨?_, ?_⟩
+    · exact (gm2_vsim _).1.trans (VSim.of_vertices_eq (gm1_ve m _).1)
+    · unfold gm2
+      have := Mesh.foldl_inv (fun m' : Mesh => m'.vertices.map (·.1) = m.vertices.map (·.1))
+        (fun (m : Mesh) (p : Id × SEdge) => m.delEdge p.1)
+        (gm1 m (m.vertices.filter fun p => !(used.contains p.1))).edges
+        (fun m' a _ h => by rw [delEdge_vkeys]; exact h)
+        (gm1 m (m.vertices.filter fun p => !(used.contains p.1))) (by rw [(gm1_ve m _).1])
+      exact this
+  have hv : (gmR m (m.vertices.filter fun p => !(used.contains p.1)) used segs).vertices =
+      (gm4 (gm2 (gm1 m (m.vertices.filter fun p => !(used.contains p.1)))) used segs).vertices := rfl
+  rw [hv]
+  unfold gm4
+  have := Mesh.foldl_inv (fun m' : Mesh => m'.vertices.map (·.1) =
+      ((gm2 (gm1 m (m.vertices.filter fun p => !(used.contains p.1)))).vertices.filter fun p => used.contains p.1).map (·.1))
+    (fun (m : Mesh) (p : Nat × Id × Id) => m.mkEdge (p.1 : Int) p.2.1 p.2.2)
+    (List.zip (List.range segs.length) segs)
+    (fun m' a _ h => by rw [mkEdge_vkeys]; exact h)
+    { vertices := (gm2 (gm1 m (m.vertices.filter fun p => !(used.contains p.1)))).vertices.filter fun p => used.contains p.1,
+      edges := [], cells := (gm2 (gm1 m (m.vertices.filter fun p => !(used.contains p.1)))).cells } rfl
+  rw [this, ← h.2, List.filter_map]
+  rfl
+
+/-- part A: the staged result is consistent as soon as the rebuilt segments join the filtered cycles -/
+theorem gmR_consP (m : Mesh) (used : List Id) (segs : List (Id × Id)) (hC : ConsP m)
+    (hsegs : ∀ s ∈ segs, s.1 ∈ used ∧ s.2 ∈ used)
+    (hused : ∀ v ∈ used, v ∈ m.vertices.map (·.1)) :
+    let R := gmR m (m.vertices.filter fun p => !(used.contains p.1)) used segs
+    KeysP R ∧ OwnEdgesP R ∧ OwnCellsP R ∧ RefsP R ∧ CellsNodupP R ∧
+    ((∀ q ∈ m.cells, q.2.verts.filter (fun x => used.contains x) ≠ [] →
+      ∀ ab ∈ cyclicPairs (q.2.verts.filter fun x => used.contains x), ab ∈ segs ∨ (ab.2, ab.1) ∈ segs) →
+      CyclesJoinedP R) := by
+  intro R0
+  show KeysP R0 ∧ OwnEdgesP R0 ∧ OwnCellsP R0 ∧ RefsP R0 ∧ CellsNodupP R0 ∧ (_ → CyclesJoinedP R0)
+  change KeysP (gmR m (m.vertices.filter fun p => !(used.contains p.1)) used segs) ∧
+    OwnEdgesP (gmR m (m.vertices.filter fun p => !(used.contains p.1)) used segs) ∧
+    OwnCellsP (gmR m (m.vertices.filter fun p => !(used.contains p.1)) used segs) ∧
+    RefsP (gmR m (m.vertices.filter fun p => !(used.contains p.1)) used segs) ∧
+    CellsNodupP (gmR m (m.vertices.filter fun p => !(used.contains p.1)) used segs) ∧
+    (_ → CyclesJoinedP (gmR m (m.vertices.filter fun p => !(used.contains p.1)) used segs))
+  clear R0
+  obtain ⟨hK, hE, hOC, hR, hN, hJ⟩ := hC
+  obtain ⟨k1, k2, k3, k4, k5, k6⟩ := hK
+  have hKm : KeysP m := ⟨k1, k2, k3, k4, k5, k6⟩
+  have F1 := gmR_cells m used segs hKm hOC hR hN
+  have F2 := gmR_vsim m (m.vertices.filter fun p => !(used.contains p.1)) used segs
+  have F3 := gmR_vkeys m used segs
+  have F4 := gmR_edges m (m.vertices.filter fun p => !(used.contains p.1)) used segs
+  have F5 : OwnEdgesP (gmR m (m.vertices.filter fun p => !(used.contains p.1)) used segs) :=
+    gm_ownEdgesP m _ used segs (fun c => c.filter fun p => !p.2.verts.isEmpty) hKm hE
+  generalize gmR m (m.vertices.filter fun p => !(used.contains p.1)) used segs = R at F1 F2 F3 F4 F5 ⊢
+  have hcell : ∀ q' ∈ R.cells, ∃ q ∈ m.cells, q' = filtC used q ∧ q'.2.verts ≠ [] := by
+    intro q' hq'
+    rw [F1] at hq'
+    obtain ⟨h1, h2⟩ := List.mem_filter.mp hq'
+    obtain ⟨q, hq, rfl⟩ := List.mem_map.mp h1
+    refine ⟨q, hq, rfl, ?_⟩
+    intro h0
+    simp [h0] at h2
+  have hckeys : (R.cells.map (·.1)).Nodup := by
+    rw [F1]
+    refine k6.sublist ?_
+    have : m.cells.map (·.1) = (m.cells.map (filtC used)).map (·.1) := by
+      rw [List.map_map]; rfl
+    rw [this]
+    exact List.filter_sublist.map _
+  have hvmem : ∀ v, v ∈ used → v ∈ R.vertices.map (·.1) := by
+    intro v hv
+    rw [F3, List.mem_filter]
+    exact ⟨hused v hv, by simpa using hv⟩
+  refine ⟨⟨?_, ?_, ?_, ?_, ?_, hckeys⟩, F5, ?_, ⟨?_, ?_⟩, ?_, ?_⟩
+  · intro p' hp'
+    obtain ⟨p, hp, a1, a2, _⟩ := F2 p' hp'
+    rw [a1, a2]; exact k1 p hp
+  · intro q hq
+    rw [F4] at hq
+    obtain ⟨s, _, rfl⟩ := List.mem_map.mp hq
+    rfl
+  · intro q' hq'
+    obtain ⟨q, hq, rfl, _⟩ := hcell q' hq'
+    exact k3 q hq
+  · rw [F3]; exact k4.sublist List.filter_sublist
+  · rw [F4, List.map_map]
+    have : (List.zip (List.range segs.length) segs).map ((fun x => x.1) ∘ segEdge) =
+        ((List.zip (List.range segs.length) segs).map (·.1)).map (fun (n : Nat) => (n : Int)) := by
+      rw [List.map_map]; rfl
+    rw [this, List.map_fst_zip (by simp)]
+    refine List.Pairwise.map _ ?_ List.nodup_range
+    intro a b h h'; exact h (Int.ofNat_inj.mp h')
+  · -- own cells
+    intro p' hp'
+    obtain ⟨p, hp, a1, a2, a3, a4⟩ := F2 p' hp'
+    obtain ⟨o1, o2, o3⟩ := hOC p hp
+    rw [a2, a3]
+    refine ⟨?_, ?_, o3⟩
+    · intro c hc
+      obtain ⟨cl, hcl, hin⟩ := o1 c hc
+      have hmem := alGet?_some_mem hcl
+      have hin' : p.2.id ∈ (filtC used (c, cl)).2.verts := by
+        simp only [filtC, List.mem_filter]
+        exact ⟨hin, by rw [← k1 p hp]; exact a4⟩
+      refine ⟨(filtC used (c, cl)).2, ?_, hin'⟩
+      apply alGet?_of_mem hckeys
+      rw [F1, List.mem_filter]
+      refine ⟨List.mem_map.mpr ⟨(c, cl), hmem, rfl⟩, ?_⟩
+      cases hv : (filtC used (c, cl)).2.verts with
+      | nil => rw [hv] at hin'; simp at hin'
+      | cons _ _ => simp
+    · intro q' hq' hin
+      obtain ⟨q, hq, rfl, _⟩ := hcell q' hq'
+      simp only [filtC, List.mem_filter] at hin
+      exact o2 q hq hin.1
+  · -- refs, edges
+    intro q hq
+    rw [F4] at hq
+    obtain ⟨s, hs, rfl⟩ := List.mem_map.mp hq
+    have hs2 := (List.of_mem_zip hs).2
+    have := hsegs s.2 hs2
+    exact ⟨rfl, hvmem _ this.1, hvmem _ this.2⟩
+  · intro q' hq'
+    obtain ⟨q, hq, rfl, _⟩ := hcell q' hq'
+    refine ⟨(hR.2 q hq).1, ?_⟩
+    intro v hv
+    simp only [filtC, List.mem_filter] at hv
+    exact hvmem v (by simpa using hv.2)
+  · intro q' hq'
+    obtain ⟨q, hq, rfl, _⟩ := hcell q' hq'
+    exact (hN q hq).sublist List.filter_sublist
+  · intro hcyc q' hq' ab hab
+    obtain ⟨q, hq, rfl, hne⟩ := hcell q' hq'
+    have hseg : ∀ x y, (x, y) ∈ segs → ∃ e ∈ R.edges, e.2.v1 = x ∧ e.2.v2 = y := by
+      intro x y hxy
+      obtain ⟨i, hi, hget⟩ := List.getElem_of_mem hxy
+      refine ⟨segEdge (i, (x, y)), ?_, rfl, rfl⟩
+      rw [F4]
+      apply List.mem_map.mpr
+      refine ⟨(i, (x, y)), ?_, rfl⟩
+      rw [List.mem_iff_getElem]
+      refine ⟨i, by simpa using hi, ?_⟩
+      simp [hget]
+    rcases hcyc q hq hne ab hab with h | h
+    · obtain ⟨e, he, h1, h2⟩ := hseg ab.1 ab.2 h
+      exact ⟨e, he, Or.inl ⟨h1, h2⟩⟩
+    · obtain ⟨e, he, h1, h2⟩ := hseg ab.2 ab.1 h
+      exact ⟨e, he, Or.inr ⟨h1, h2⟩⟩
+
 end Mesh
+
+/-! ### part B: the filtered cycle of a cell is the chain of its filtered interfaces -/
+
+section partB
+variable {α : Type}
+
+theorem closeAux_mem_of_group (f : α) (gs : List (List α)) (g : List α) (hg : g ∈ gs) :
+    ∃ x, g ++ [x] ∈ closeAux f gs := by
+  induction gs with
+  | nil => simp at hg
+  | cons g' gs ih =>
+    rcases List.mem_cons.mp hg with rfl | h
+    · exact ⟨(gs.head?.bind List.head?).getD f, by simp [closeAux]⟩
+    · obtain ⟨x, hx⟩ := ih h
+      exact ⟨x, by simp [closeAux, hx]⟩
+
+theorem closeAux_mem_elems (f : α) (gs : List (List α)) :
+    ∀ p ∈ closeAux f gs, ∀ x ∈ p, x ∈ gs.flatten ∨ x = f := by
+  induction gs with
+  | nil => simp [closeAux]
+  | cons g gs ih =>
+    intro p hp x hx
+    simp only [closeAux, List.mem_cons] at hp
+    rcases hp with rfl | hp
+    · simp only [List.mem_append, List.mem_singleton] at hx
+      rcases hx with hx | hx
+      · left; simp [hx]
+      · cases gs with
+        | nil => right; simpa using hx
+        | cons g' gs =>
+          cases g' with
+          | nil => right; simpa using hx
+          | cons a' r' => left; simp at hx; simp [hx]
+    · rcases ih p hp x hx with h | h
+      · left; simp [h]
+      · right; exact h
+
+theorem closeAux_filter (U : α → Bool) (f : α) (hf : U f = true) (gs : List (List α))
+    (hh : ∀ g ∈ gs, ∃ a r, g = a :: r ∧ U a = true) :
+    closeAux f (gs.map (List.filter U)) = (closeAux f gs).map (List.filter U) := by
+  induction gs with
+  | nil => simp [closeAux]
+  | cons g gs ih =>
+    have ih' := ih (fun g hg => hh g (List.mem_cons_of_mem _ hg))
+    simp only [List.map_cons, closeAux, ih', List.filter_append]
+    congr 2
+    cases gs with
+    | nil => simp [hf]
+    | cons g' gs =>
+      obtain ⟨a', r', rfl, ha'⟩ := hh g' (by simp)
+      simp [ha']
+
+theorem cyclicPairs_filter_groups (U : α → Bool) (a : α) (r : List α) (gs : List (List α))
+    (hh : ∀ g ∈ (a :: r) :: gs, ∃ a r, g = a :: r ∧ U a = true) :
+    cyclicPairs ((((a :: r) :: gs).flatten).filter U) =
+      (((closeAux a ((a :: r) :: gs)).map (List.filter U)).map fun p => List.zip p p.tail).flatten := by
+  have ha : U a = true := by
+    obtain ⟨a', r', h, hu⟩ := hh (a :: r) (by simp)
+    simp only [List.cons.injEq] at h
+    rw [h.1]; exact hu
+  rw [← closeAux_filter U a ha _ hh, closeAux_pairs]
+  · rw [List.filter_flatten]
+    simp only [List.map_cons, List.flatten_cons, List.filter_cons, ha, if_true, List.cons_append]
+    rw [cyclicPairs_cons]
+  · intro g hg
+    obtain ⟨g0, hg0, rfl⟩ := List.mem_map.mp hg
+    obtain ⟨a', r', rfl, hu⟩ := hh g0 hg0
+    simp [hu]
+
+theorem mem_zip_tail_iff (x y : α) (Q : List α) :
+    (x, y) ∈ List.zip Q Q.tail ↔ ∃ l1 l2, Q = l1 ++ x :: y :: l2 := by
+  induction Q with
+  | nil => simp
+  | cons a t ih =>
+    cases t with
+    | nil =>
+      simp only [List.tail_cons, List.zip_nil_right, List.not_mem_nil, false_iff, not_exists]
+      intro l1 l2 h
+      have := congrArg List.length h
+      simp at this
+      omega
+    | cons b t' =>
+      simp only [List.tail_cons, List.zip_cons_cons, List.mem_cons, Prod.mk.injEq]
+      simp only [List.tail_cons] at ih
+      rw [ih]
+      constructor
+      · rintro (⟨rfl, rfl⟩ | ⟨l1, l2, h⟩)
+        · exact ⟨[], t', rfl⟩
+        · exact ⟨a :: l1, l2, by rw [h]; rfl⟩
+      · rintro ⟨l1, l2, h⟩
+        cases l1 with
+        | nil =>
+          simp only [List.nil_append, List.cons.injEq] at h
+          exact Or.inl ⟨h.1.symm, h.2.1.symm⟩
+        | cons c l1 =>
+          simp only [List.cons_append, List.cons.injEq] at h
+          exact Or.inr ⟨l1, l2, h.2⟩
+
+theorem mem_zip_tail_reverse (x y : α) (Q : List α) (h : (x, y) ∈ List.zip Q Q.tail) :
+    (y, x) ∈ List.zip Q.reverse Q.reverse.tail := by
+  rw [mem_zip_tail_iff] at h ⊢
+  obtain ⟨l1, l2, rfl⟩ := h
+  exact ⟨l2.reverse, l1.reverse, by simp⟩
+
+theorem filter_mem_of_sublist_nodup [DecidableEq α] {S d : List α} (hs : S.Sublist d) (hd : d.Nodup) :
+    d.filter (fun v => decide (v ∈ S)) = S := by
+  induction hs with
+  | slnil => rfl
+  | cons a hs ih =>
+    rename_i S l
+    rw [List.nodup_cons] at hd
+    have : a ∉ S := fun h => hd.1 (hs.subset h)
+    simp [this, ih hd.2]
+  | cons_cons a hs ih =>
+    rename_i S l
+    rw [List.nodup_cons] at hd
+    simp only [List.filter_cons, List.mem_cons, true_or, decide_true, if_true, List.cons.injEq, true_and]
+    refine Eq.trans ?_ (ih hd.2)
+    apply List.filter_congr
+    intro x hx
+    have : x ≠ a := fun h => hd.1 (h ▸ hx)
+    simp [this]
+
+/-- the join statement for one cell that has a junction -/
+theorem cell_hcyc (isJ : α → Bool) (U : α → Bool) (cyc : List α) (hj : ∃ a ∈ cyc, isJ a = true)
+    (segs : List (α × α))
+    (hends : ∀ P ∈ cellPaths isJ cyc, ∀ a, P.head? = some a → U a = true)
+    (hpairs : ∀ P ∈ cellPaths isJ cyc, ∀ ab ∈ List.zip (P.filter U) (P.filter U).tail,
+      ab ∈ segs ∨ (ab.2, ab.1) ∈ segs) :
+    ∀ ab ∈ cyclicPairs (cyc.filter U), ab ∈ segs ∨ (ab.2, ab.1) ∈ segs := by
+  intro ab hab
+  obtain ⟨l1, l2, h1, h2⟩ := cellGroups_flatten_rotation isJ cyc hj
+  rcases cellPaths_cases isJ cyc with ⟨hG, _⟩ | ⟨a, r, gs, hG, ha, hp⟩
+  · exfalso
+    have : cellGroups isJ cyc ≠ [] := by
+      rw [cellGroups_eq]
+      intro h0
+      exact splitAux_groups_ne_nil isJ cyc hj ((appendLast_eq_nil _ _).1 h0)
+    exact this hG
+  · have hh : ∀ g ∈ (a :: r) :: gs, ∃ a r, g = a :: r ∧ U a = true := by
+      intro g hg
+      obtain ⟨a', r', rfl, _, _⟩ := (cellGroups_shape' isJ cyc) g (hG ▸ hg)
+      refine ⟨a', r', rfl, ?_⟩
+      obtain ⟨x, hx⟩ := closeAux_mem_of_group a _ _ hg
+      exact hends _ (hp ▸ hx) a' (by simp)
+    have key := cyclicPairs_filter_groups U a r gs hh
+    rw [← hp, ← hG, h2, List.filter_append] at key
+    rw [h1, List.filter_append] at hab
+    have hab' : ab ∈ cyclicPairs (l2.filter U ++ l1.filter U) :=
+      (cyclicPairs_rotation_perm (l1.filter U) (l2.filter U)).mem_iff.mpr hab
+    rw [key] at hab'
+    simp only [List.mem_flatten, List.mem_map] at hab'
+    obtain ⟨z, ⟨Q, ⟨P, hP, rfl⟩, rfl⟩, hz⟩ := hab'
+    exact hpairs P hP ab hz
+
+theorem cellPaths_elems (isJ : α → Bool) (cyc : List α) :
+    ∀ P ∈ cellPaths isJ cyc, ∀ x ∈ P, x ∈ cyc := by
+  intro P hP x hx
+  rcases cellPaths_cases isJ cyc with ⟨_, h0⟩ | ⟨a, r, gs, hG, ha, hp⟩
+  · rw [h0] at hP; simp at hP
+  · rw [hp] at hP
+    have hfl : ∀ y, y ∈ (cellGroups isJ cyc).flatten → y ∈ cyc := by
+      intro y hy
+      rw [cellGroups_eq] at hy
+      have hf := splitAux_flatten' isJ cyc
+      by_cases hnil : (splitAux isJ cyc).2 = []
+      · rw [hnil] at hy; simp [appendLast] at hy
+      · rw [appendLast_flatten _ _ hnil] at hy
+        rw [← hf]
+        simp only [List.mem_append] at hy ⊢
+        exact hy.symm
+    rcases closeAux_mem_elems a _ P hP x hx with h | h
+    · exact hfl x (hG ▸ h)
+    · exact hfl x (by rw [hG, h]; simp)
+
+theorem cellPaths_dropLast_nodup (isJ : α → Bool) (cyc : List α) (hnd : cyc.Nodup) :
+    ∀ P ∈ cellPaths isJ cyc, P.dropLast.Nodup := by
+  intro P hP
+  have hfl : (cellGroups isJ cyc).flatten.Nodup := by
+    rw [cellGroups_eq]
+    have hf := splitAux_flatten' isJ cyc
+    by_cases hnil : (splitAux isJ cyc).2 = []
+    · rw [hnil]; simp [appendLast]
+    · rw [appendLast_flatten _ _ hnil]
+      rw [← hf] at hnd
+      exact (List.perm_append_comm.nodup_iff).mp hnd
+  rw [← cellPaths_cover] at hfl
+  exact (List.pairwise_flatten.mp hfl).1 _ (List.mem_map.mpr ⟨P, hP, rfl⟩)
+
+end partB
+
+/-! ### part C: assembling -/
+
+section partC
+variable {α : Type}
+
+/-- on an interface `a :: mid ++ [b]` whose interior avoids its ends, keeping exactly the vertices that the
+    resampling rule keeps gives the resampled interface, in order -/
+theorem filter_eq_pick [DecidableEq α] (ne : Nat) (hne : 1 ≤ ne) (a b : α) (mid : List α)
+    (hd : (a :: mid).Nodup) (hb : b ∉ mid) (U : α → Bool)
+    (hU1 : ∀ v ∈ pick ne (a :: (mid ++ [b])), U v = true)
+    (hU2 : ∀ v ∈ a :: (mid ++ [b]), U v = true → v ∈ pick ne (a :: (mid ++ [b]))) :
+    (a :: (mid ++ [b])).filter U = pick ne (a :: (mid ++ [b])) := by
+  by_cases h : ne < (a :: (mid ++ [b])).length
+  · have hlast : (a :: (mid ++ [b])).getLast? = some b := by
+      rw [← List.cons_append, List.getLast?_concat]
+    have hpl := pick_long ne _ h
+    rw [hlast] at hpl
+    simp only [Option.toList_some] at hpl
+    generalize hS : ((List.range ne).filterMap fun i =>
+      (a :: (mid ++ [b]))[((a :: (mid ++ [b])).length * i) / ne]?) = S at hpl
+    have hlen : (S ++ [b]).length = ne + 1 := by rw [← hpl]; exact pick_length_long ne _ h
+    have hSlen : S.length = ne := by simpa using hlen
+    have hsub : (S ++ [b]).Sublist ((a :: mid) ++ [b]) := by
+      rw [← hpl]; exact pick_sublist ne _
+    have hSsub : S.Sublist (a :: mid) := by
+      have := hsub.reverse
+      simp only [List.reverse_append, List.reverse_cons, List.reverse_nil, List.nil_append,
+        List.singleton_append] at this
+      have h2 := List.cons_sublist_cons.mp this
+      have h3 := h2.reverse
+      simpa using h3
+    have haS : a ∈ S := by
+      have h0 := pick_getElem ne _ h 0 (by omega)
+      rw [hpl] at h0
+      simp only [Nat.mul_zero, Nat.zero_div, List.getElem?_cons_zero] at h0
+      rw [List.getElem?_append_left (by omega)] at h0
+      exact List.mem_of_getElem? h0
+    have hUb : U b = true := hU1 b (by rw [hpl]; simp)
+    rw [hpl] at hU1 hU2 ⊢
+    rw [← List.cons_append, List.filter_append]
+    have : [b].filter U = [b] := by simp [hUb]
+    rw [this]
+    congr 1
+    rw [← filter_mem_of_sublist_nodup hSsub hd]
+    apply List.filter_congr
+    intro v hv
+    rw [Bool.eq_iff_iff]
+    simp only [decide_eq_true_eq]
+    constructor
+    · intro hu
+      have := hU2 v (by rw [← List.cons_append]; exact List.mem_append_left _ hv) hu
+      rcases List.mem_append.mp this with h1 | h1
+      · exact h1
+      · simp only [List.mem_singleton] at h1
+        subst h1
+        rcases List.mem_cons.mp hv with h2 | h2
+        · rw [h2]; exact haS
+        · exact absurd h2 hb
+    · intro hs
+      exact hU1 v (List.mem_append_left _ hs)
+  · rw [pick_short ne _ (by omega)] at hU1 ⊢
+    exact List.filter_eq_self.mpr hU1
+
+end partC
+
+namespace Mesh
+
+theorem generateMesh_false_eq (m : Mesh) (ne : Nat) :
+    (m.generateMesh ne false).mesh =
+      gmR m (m.vertices.filter fun p => !(((m.bigEdgesList.map (pick ne)).flatten).contains p.1))
+        ((m.bigEdgesList.map (pick ne)).flatten)
+        (((m.bigEdgesList.map (pick ne)).map fun be => List.zip be be.tail).flatten) := rfl
+
+theorem bigEdges_from_cell (m : Mesh) (e : List Id) (he : e ∈ m.bigEdgesList) :
+    ∃ q ∈ m.cells, e ∈ cellPaths m.isJunction q.2.verts := by
+  have := dedup_sub _ e he
+  simp only [List.mem_flatten, List.mem_map] at this
+  obtain ⟨l, ⟨q, hq, rfl⟩, hl⟩ := this
+  exact ⟨q, hq, hl⟩
+
+theorem bigEdges_complete (m : Mesh) (q : Id × Cell) (hq : q ∈ m.cells) (P : List Id)
+    (hP : P ∈ cellPaths m.isJunction q.2.verts) : P ∈ m.bigEdgesList ∨ P.reverse ∈ m.bigEdgesList := by
+  apply dedup_complete
+  simp only [List.mem_flatten, List.mem_map]
+  exact ⟨_, ⟨q, hq, rfl⟩, hP⟩
+
+/-- five clauses hold unconditionally; the sixth as soon as the rebuilt segments join the filtered cycles -/
+theorem generateMesh_false_clauses (m : Mesh) (ne : Nat) (hC : ConsP m) :
+    KeysP (m.generateMesh ne false).mesh ∧ OwnEdgesP (m.generateMesh ne false).mesh ∧
+    OwnCellsP (m.generateMesh ne false).mesh ∧ RefsP (m.generateMesh ne false).mesh ∧
+    CellsNodupP (m.generateMesh ne false).mesh ∧
+    ((∀ q ∈ m.cells, q.2.verts.filter (fun x => ((m.bigEdgesList.map (pick ne)).flatten).contains x) ≠ [] →
+      ∀ ab ∈ cyclicPairs (q.2.verts.filter fun x => ((m.bigEdgesList.map (pick ne)).flatten).contains x),
+        ab ∈ (((m.bigEdgesList.map (pick ne)).map fun be => List.zip be be.tail).flatten) ∨
+        (ab.2, ab.1) ∈ (((m.bigEdgesList.map (pick ne)).map fun be => List.zip be be.tail).flatten)) →
+      CyclesJoinedP (m.generateMesh ne false).mesh) := by
+  rw [generateMesh_false_eq]
+  have hR := hC.2.2.2.1
+  have hmemU : ∀ e ∈ m.bigEdgesList, ∀ v ∈ pick ne e, v ∈ (m.bigEdgesList.map (pick ne)).flatten := by
+    intro e he v hv
+    exact List.mem_flatten.mpr ⟨_, List.mem_map.mpr ⟨e, he, rfl⟩, hv⟩
+  apply gmR_consP m _ _ hC
+  · intro s hs
+    simp only [List.mem_flatten, List.mem_map] at hs
+    obtain ⟨z, ⟨be, ⟨e, he, rfl⟩, rfl⟩, hz⟩ := hs
+    have := List.of_mem_zip hz
+    exact ⟨hmemU e he _ this.1, hmemU e he _ (List.mem_of_mem_tail this.2)⟩
+  · intro v hv
+    simp only [List.mem_flatten, List.mem_map] at hv
+    obtain ⟨be, ⟨e, he, rfl⟩, hv⟩ := hv
+    obtain ⟨q, hq, hP⟩ := bigEdges_from_cell m e he
+    exact (hR.2 q hq).2 v (cellPaths_elems _ _ e hP v ((pick_sublist ne e).subset hv))
+
+/-- the join statement for all cells from the two decidable hypotheses -/
+theorem generateMesh_false_hcyc (m : Mesh) (ne : Nat) (hC : ConsP m) (hne : 1 ≤ ne)
+    (hanch : ∀ q ∈ m.cells, (∃ a ∈ q.2.verts, m.isJunction a = true) ∨
+      ∀ v ∈ q.2.verts, v ∉ (m.bigEdgesList.map (pick ne)).flatten)
+    (hagree : ∀ e ∈ m.bigEdgesList, ∀ v ∈ e, v ∈ (m.bigEdgesList.map (pick ne)).flatten → v ∈ pick ne e) :
+    ∀ q ∈ m.cells, q.2.verts.filter (fun x => ((m.bigEdgesList.map (pick ne)).flatten).contains x) ≠ [] →
+      ∀ ab ∈ cyclicPairs (q.2.verts.filter fun x => ((m.bigEdgesList.map (pick ne)).flatten).contains x),
+        ab ∈ (((m.bigEdgesList.map (pick ne)).map fun be => List.zip be be.tail).flatten) ∨
+        (ab.2, ab.1) ∈ (((m.bigEdgesList.map (pick ne)).map fun be => List.zip be be.tail).flatten) := by
+  generalize hused : (m.bigEdgesList.map (pick ne)).flatten = used at hanch hagree ⊢
+  have hN := hC.2.2.2.2.1
+  have hmemU : ∀ e ∈ m.bigEdgesList, ∀ v ∈ pick ne e, v ∈ used := by
+    intro e he v hv
+    rw [← hused]
+    exact List.mem_flatten.mpr ⟨_, List.mem_map.mpr ⟨e, he, rfl⟩, hv⟩
+  -- every interface, filtered by "is kept", is its resampled version
+  have hfaith : ∀ e ∈ m.bigEdgesList, e.filter (fun x => used.contains x) = pick ne e := by
+    intro e he
+    obtain ⟨q, hq, hP⟩ := bigEdges_from_cell m e he
+    obtain ⟨a, mid, b, rfl, ha, hb, hmid⟩ := cellPaths_ends _ _ e hP
+    have hdl := cellPaths_dropLast_nodup _ _ (hN q hq) _ hP
+    have hdl' : (a :: mid).Nodup := by
+      rw [← List.cons_append, List.dropLast_concat] at hdl; exact hdl
+    apply filter_eq_pick ne hne a b mid hdl'
+    · intro hbm; have := hmid b hbm; rw [hb] at this; exact absurd this (by simp)
+    · intro v hv; simpa using hmemU _ he v hv
+    · intro v hv hu; exact hagree _ he v hv (by simpa using hu)
+  intro q hq hne0
+  rcases hanch q hq with hj | hnone
+  · apply cell_hcyc m.isJunction (fun x => used.contains x) q.2.verts hj
+    · intro P hP a hPa
+      rcases bigEdges_complete m q hq P hP with h | h
+      · have := generateMesh_keeps_ends m ne hne P h a (Or.inl hPa)
+        rw [hused] at this; simpa using this
+      · have := generateMesh_keeps_ends m ne hne P.reverse h a (Or.inr (by rw [List.getLast?_reverse]; exact hPa))
+        rw [hused] at this; simpa using this
+    · intro P hP ab hab
+      rcases bigEdges_complete m q hq P hP with h | h
+      · left
+        rw [hfaith P h] at hab
+        simp only [List.mem_flatten, List.mem_map]
+        exact ⟨_, ⟨pick ne P, ⟨P, h, rfl⟩, rfl⟩, hab⟩
+      · right
+        have hrev := hfaith P.reverse h
+        rw [List.filter_reverse] at hrev
+        have := mem_zip_tail_reverse ab.1 ab.2 _ hab
+        rw [hrev] at this
+        simp only [List.mem_flatten, List.mem_map]
+        exact ⟨_, ⟨pick ne P.reverse, ⟨P.reverse, h, rfl⟩, rfl⟩, this⟩
+  · exfalso
+    apply hne0
+    apply List.filter_eq_nil_iff.mpr
+    intro v hv
+    simpa using hnone v hv
+
+/-- the preservation theorem, Prop-level form -/
+theorem generateMesh_false_consP (m : Mesh) (ne : Nat) (hC : ConsP m) (hne : 1 ≤ ne)
+    (hanch : ∀ q ∈ m.cells, (∃ a ∈ q.2.verts, m.isJunction a = true) ∨
+      ∀ v ∈ q.2.verts, v ∉ (m.bigEdgesList.map (pick ne)).flatten)
+    (hagree : ∀ e ∈ m.bigEdgesList, ∀ v ∈ e, v ∈ (m.bigEdgesList.map (pick ne)).flatten → v ∈ pick ne e) :
+    ConsP (m.generateMesh ne false).mesh := by
+  obtain ⟨a1, a2, a3, a4, a5, a6⟩ := generateMesh_false_clauses m ne hC
+  exact ⟨a1, a2, a3, a4, a5, a6 (generateMesh_false_hcyc m ne hC hne hanch hagree)⟩
+
+end Mesh
+
+/-! ### kept junctions, positions -/
+
+theorem cellPaths_head_of_junction {α : Type} (isJ : α → Bool) (cyc : List α) (v : α) (hv : v ∈ cyc)
+    (hj : isJ v = true) : ∃ P ∈ cellPaths isJ cyc, P.head? = some v := by
+  have hex : ∃ a ∈ cyc, isJ a = true := ⟨v, hv, hj⟩
+  obtain ⟨l1, l2, h1, h2⟩ := cellGroups_flatten_rotation isJ cyc hex
+  rcases cellPaths_cases isJ cyc with ⟨hG, _⟩ | ⟨a, r, gs, hG, ha, hp⟩
+  · exfalso
+    have : cellGroups isJ cyc ≠ [] := by
+      rw [cellGroups_eq]
+      intro h0
+      exact splitAux_groups_ne_nil isJ cyc hex ((appendLast_eq_nil _ _).1 h0)
+    exact this hG
+  · have hvf : v ∈ (cellGroups isJ cyc).flatten := by
+      rw [h2]; rw [h1] at hv
+      simp only [List.mem_append] at hv ⊢
+      exact hv.symm
+    obtain ⟨g, hg, hvg⟩ := List.mem_flatten.mp hvf
+    obtain ⟨a', r', rfl, _, hr'⟩ := (cellGroups_shape' isJ cyc) g hg
+    have hva : v = a' := by
+      rcases List.mem_cons.mp hvg with h | h
+      · exact h
+      · have := hr' v h; rw [hj] at this; exact absurd this (by simp)
+    subst hva
+    obtain ⟨x, hx⟩ := closeAux_mem_of_group a _ _ (hG ▸ hg)
+    exact ⟨_, hp ▸ hx, by simp⟩
+
+theorem alGet?_map_snd {β γ : Type} (f : β → γ) (k : Id) (l : List (Id × β)) :
+    (alGet? k l).map f = alGet? k (l.map fun p => (p.1, f p.2)) := by
+  induction l with
+  | nil => rfl
+  | cons p l ih =>
+    obtain ⟨k', v⟩ := p
+    simp only [alGet?, List.map_cons]
+    split
+    · rfl
+    · exact ih
+
+theorem alGet?_filter_key {β : Type} (c : Id → Bool) (k : Id) (hk : c k = true) (l : List (Id × β)) :
+    alGet? k (l.filter fun p => c p.1) = alGet? k l := by
+  induction l with
+  | nil => rfl
+  | cons p l ih =>
+    obtain ⟨k', v⟩ := p
+    by_cases hc : c k' = true
+    · simp only [List.filter_cons, hc, if_true, alGet?, ih]
+    · simp only [List.filter_cons, hc, Bool.false_eq_true, if_false, alGet?, ih]
+      have : k ≠ k' := fun h => hc (h ▸ hk)
+      simp [this]
+
+namespace Mesh
+
+theorem generateMesh_vertex_kept (m : Mesh) (ne : Nat) (v : Id)
+    (hv : v ∈ (m.bigEdgesList.map (pick ne)).flatten) :
+    ((m.generateMesh ne false).mesh.vertex? v).map (fun x => (x.id, x.x, x.y)) =
+      (m.vertex? v).map (fun x => (x.id, x.x, x.y)) := by
+  have h := generateMesh_vertices m ne
+  simp only [vertex?]
+  have e1 : ∀ l : List (Id × Vertex), (l.map fun p => (p.1, (fun x : Vertex => (x.id, x.x, x.y)) p.2)) =
+      l.map (fun p => (p.1, p.2.id, p.2.x, p.2.y)) := fun _ => rfl
+  have a1 := alGet?_map_snd (fun x : Vertex => (x.id, x.x, x.y)) v (m.generateMesh ne false).mesh.vertices
+  have a2 := alGet?_map_snd (fun x : Vertex => (x.id, x.x, x.y)) v
+    (m.vertices.filter fun p => ((m.bigEdgesList.map (pick ne)).flatten).contains p.1)
+  rw [e1] at a1 a2
+  rw [a1, h, ← a2,
+    alGet?_filter_key (fun k => ((m.bigEdgesList.map (pick ne)).flatten).contains k) v (by simpa using hv)]
+
+theorem pt_of_proj (m m' : Mesh) (v : Id)
+    (h : (m'.vertex? v).map (fun x => (x.id, x.x, x.y)) = (m.vertex? v).map (fun x => (x.id, x.x, x.y))) :
+    m'.pt v = m.pt v ∧ (m'.vertex? v).isSome = (m.vertex? v).isSome := by
+  unfold pt
+  cases h1 : m'.vertex? v <;> cases h2 : m.vertex? v <;> simp [h1, h2] at h ⊢
+  simp [h]
+
+end Mesh
+
 end Forsys
